@@ -7,7 +7,7 @@ before a file-system operation / in the middle of a write: kill -9 semantics, th
 file system stays).  Forking instead of starting an interpreter per process makes a process lifetime cost ~20 ms instead of
 ~500 ms, which pays for histories of several processes (crash, recovery killed again, recovery, ...).
 stdin, first line: {"root": dir with the package, "pkg": name, "mods": [module names]}; then one request per line:
-  {"store": {...}, "actions": [...], "gate": {...}|null, "pid": int|null}  ->  {"rc": exit code, "res": result|null, "out": tail}"""
+  {"store": {...}, "actions": [...], "gate": {..., "roots": [dirs]|absent}|null, "pid": int|null}  ->  {"rc": exit code, "res": result|null, "out": tail}"""
 import importlib
 import io
 import json
@@ -31,6 +31,12 @@ def child(req, cfg, outfile):
         payload = {"root": cfg["root"], "pkg": cfg["pkg"], "store": req["store"], "actions": req["actions"]}
         if req.get("gate"):
             payload["gate"] = req["gate"]
+            if req["gate"].get("roots"):
+                # the crash points are the operations under these roots (the volume of a directory layout: the creation of
+                # the parents of the two directories counts), not only those under the two directories of the store
+                import fsgate
+                install, roots = fsgate.install, list(req["gate"]["roots"])
+                fsgate.install = lambda _roots, **kw: install(roots, **kw)
         sys.stdin = io.StringIO(json.dumps(payload))
         sys.stdout = sys.stderr = open(outfile, "w")
         import drive_prog
